@@ -392,6 +392,19 @@ def case_fasta(rng, ctx):
                 d = B.fasta.get_sequences(g, seq_type=cls)
                 if [(h, str(v)) for h, v in d.items()] != [(r[0].strip(), r[2]) for r in seqs]:
                     ctx.fail("fasta_convert_roundtrip", "get_sequences differs from the sequences written", got=_short(d))
+            # all entries at once with automatic type detection: every entry is typed by its own content (files that mix
+            # nucleotide and protein entries included)
+            if all(r[1] != "prot" or any(c not in NUC_AMB + "XU" for c in r[2]) for r in seqs) and all(len(r[2]) > 0 for r in seqs):
+                try:
+                    dall = B.fasta.get_sequences(g)
+                except Exception as e:
+                    ctx.fail("fasta_convert_roundtrip", "get_sequences() with automatic type detection raised %s: %s" % (type(e).__name__, e))
+                for (h, kind, s_, sq, rna), (h2, v) in zip(seqs, dall.items()):
+                    cls = B.Prot if kind == "prot" else B.Nuc
+                    if h2 != h.strip() or str(v) != s_ or not isinstance(v, cls):
+                        ctx.fail("fasta_convert_roundtrip", "get_sequences()[%r] = %s, written %s(%r)" % (h2, _short(v), cls.__name__, s_))
+                if len(dall) != len(seqs):
+                    ctx.fail("fasta_convert_roundtrip", "get_sequences() returns %d entries, written %d" % (len(dall), len(seqs)))
             first = B.fasta.get_sequence(g, seq_type=B.Prot if seqs[0][1] == "prot" else B.Nuc)
             if str(first) != seqs[0][2]:
                 ctx.fail("fasta_convert_roundtrip", "get_sequence() without header is not the first sequence written")
